@@ -142,14 +142,14 @@ Proof. intros Hn. apply (halfmesh_3d n (tri_eq u v w) Hn). Qed.
 
 (* the multiplicity expressions regenerated from the four accumulation statements of bin_kmu and the two of bin_kppi *)
 Lemma kmu_mult_ok n k : kmu_mult k n = smult n k.
-Proof. unfold kmu_mult, smult. reflexivity. Qed.
+Proof. unfold kmu_mult, smult. repeat match goal with |- context [(?a =? ?b)] => destruct (a =? b) eqn:? end; cbn [orb andb negb]; lia. Qed.
 Lemma kmu_wmult_ok n k w : kmu_wmult k n w = smult n k * w.
-Proof. unfold kmu_wmult, smult. destruct ((k =? 0) || (2 * k =? n)); lia. Qed.
+Proof. unfold kmu_wmult, smult. repeat match goal with |- context [(?a =? ?b)] => destruct (a =? b) eqn:? end; cbn [orb andb negb]; lia. Qed.
 Lemma kmu_kavg_mult_ok n k w dk : kmu_kavg_mult k n w dk = smult n k * (w * dk).
-Proof. unfold kmu_kavg_mult, smult. destruct ((k =? 0) || (2 * k =? n)); lia. Qed.
+Proof. unfold kmu_kavg_mult, smult. repeat match goal with |- context [(?a =? ?b)] => destruct (a =? b) eqn:? end; cbn [orb andb negb]; lia. Qed.
 Lemma kmu_pole_mult_ok n k w pw : kmu_pole_mult k n w pw = smult n k * (w * pw).
-Proof. unfold kmu_pole_mult, smult. destruct ((k =? 0) || (2 * k =? n)); lia. Qed.
+Proof. unfold kmu_pole_mult, smult. repeat match goal with |- context [(?a =? ?b)] => destruct (a =? b) eqn:? end; cbn [orb andb negb]; lia. Qed.
 Lemma kppi_mult_ok n k : kppi_mult k n = smult n k.
-Proof. unfold kppi_mult, smult. reflexivity. Qed.
+Proof. unfold kppi_mult, smult. repeat match goal with |- context [(?a =? ?b)] => destruct (a =? b) eqn:? end; cbn [orb andb negb]; lia. Qed.
 Lemma kppi_wmult_ok n k w : kppi_wmult k n w = smult n k * w.
-Proof. unfold kppi_wmult, smult. destruct ((k =? 0) || (2 * k =? n)); lia. Qed.
+Proof. unfold kppi_wmult, smult. repeat match goal with |- context [(?a =? ?b)] => destruct (a =? b) eqn:? end; cbn [orb andb negb]; lia. Qed.
